@@ -154,6 +154,10 @@ def _show(v):
 
 
 # ------------------------------------------------------------------------------------------ on the wire
+# the operation text is opaque to the client: whitespace inside string literals and block strings must arrive untouched
+QUERY_TEXT = 'query Q($note: String = "two  spaces   three") {\n  x(s: "a  b   c", b: """\n    block  text\n  """)\n}'
+
+
 def _decode_multipart(request):
     import email
     import email.policy
@@ -199,10 +203,10 @@ def bounded_wire(tier, seed):
                 try:
                     if "Async" in k:
                         client = cls(http_client=httpx.AsyncClient(transport=httpx.MockTransport(handler)), **kw)
-                        asyncio.run(client.execute("query Q { x }", operation_name="Q", variables=tree, headers={"X-T": "1"}))
+                        asyncio.run(client.execute(QUERY_TEXT, operation_name="Q", variables=tree, headers={"X-T": "1"}))
                     else:
                         client = cls(http_client=httpx.Client(transport=httpx.MockTransport(handler)), **kw)
-                        client.execute("query Q { x }", operation_name="Q", variables=tree, headers={"X-T": "1"})
+                        client.execute(QUERY_TEXT, operation_name="Q", variables=tree, headers={"X-T": "1"})
                     bad = _check_wire(tree, seen, client)
                 except Exception as e:      # noqa
                     bad = [f"raises-{type(e).__name__}: {str(e)[:120]}"]
@@ -235,7 +239,7 @@ def _check_wire(tree, seen, client):
         if req.headers.get("content-type") != "application/json":
             bad.append("json-content-type")
         body = json.loads(req.content)
-        if body != {"query": "query Q { x }", "operationName": "Q", "variables": _jsonable(conv)}:
+        if body != {"query": QUERY_TEXT, "operationName": "Q", "variables": _jsonable(conv)}:
             bad.append("body-carries-exactly-query-operationName-variables")
         return bad
     if not req.headers.get("content-type", "").startswith("multipart/form-data"):
@@ -243,7 +247,7 @@ def _check_wire(tree, seen, client):
     parts = _decode_multipart(req)
     ops = json.loads(parts["operations"]["payload"])
     fmap = json.loads(parts["map"]["payload"])
-    if ops != {"query": "query Q { x }", "operationName": "Q", "variables": _jsonable(nulled(conv))}:
+    if ops != {"query": QUERY_TEXT, "operationName": "Q", "variables": _jsonable(nulled(conv))}:
         bad.append("operations-has-null-at-every-file-position")
     file_parts = {k: v for k, v in parts.items() if k not in ("operations", "map")}
     distinct = []
